@@ -355,7 +355,7 @@ Example C08_example_tolerated_chunk_then_accept :
                                 n_over := [ (0, BReply 10 (RError {| e_shape := ShFailures; e_entries := [Some PhPriorAtt] |})) ];
                                 n_ver1 := Some 0; n_ver2 := Some 0 |} ] |} in
   let calls := [[(0, [0; 1]); (0, [2; 3])]] in
-  let seen ok ret cut := {| c_id := 0; c_body := CSubmit inp [0%nat]
+  let seen ok ret cut := {| c_id := 0; c_body := CSubmit inp None [0%nat]
         {| o_panic := false; o_success := ok; o_ret := ret; o_nodes := calls; o_cut := [cut] |} |} in
   run inp [0%nat] = ([ {| v_start := Some 0; v_at := Some 0; v_calls := [(0, 2); (2, 2)]; v_done := Some 30; v_verdict := VOk |} ], [(true, 30)])
   /\ clean_input inp = true
@@ -377,7 +377,7 @@ Example C08_example_version_faults :
   let nd v d := {| n_client := Lighthouse; n_default := BReply d RAccept; n_over := []; n_ver1 := v; n_ver2 := Some 0 |} in
   let inp := {| i_kind := KSyncContributions; i_len := 2; i_conc := 3; i_timeout := 500;
                 i_nodes := [ nd None 10; nd (Some 300) 10; nd (Some 0) 40 ] |} in
-  let seen ok ret nodes := {| c_id := 0; c_body := CSubmit inp [0; 1; 2]%nat
+  let seen ok ret nodes := {| c_id := 0; c_body := CSubmit inp None [0; 1; 2]%nat
         {| o_panic := false; o_success := ok; o_ret := ret; o_nodes := nodes; o_cut := [[]; []; []] |} |} in
   snd (run inp [0; 1; 2]%nat) = [(true, 40)]
   /\ map v_at (fst (run inp [0; 1; 2]%nat)) = [None; Some 300; Some 0]
@@ -398,7 +398,7 @@ Example C08_example_version_again :
   let inp := {| i_kind := KSyncMessages; i_len := 2; i_conc := 2; i_timeout := 500;
                 i_nodes := [ {| n_client := Teku; n_default := BReply 40 dup; n_over := []; n_ver1 := Some 20; n_ver2 := Some 100 |};
                              {| n_client := Prysm; n_default := BHang; n_over := []; n_ver1 := Some 0; n_ver2 := None |} ] |} in
-  let seen ok ret := {| c_id := 0; c_body := CSubmit inp [0; 1]%nat
+  let seen ok ret := {| c_id := 0; c_body := CSubmit inp None [0; 1]%nat
         {| o_panic := false; o_success := ok; o_ret := ret; o_nodes := [[(20, [0; 1])]; [(0, [0; 1])]]; o_cut := [[]; []] |} |} in
   run inp [0; 1]%nat
   = ([ {| v_start := Some 0; v_at := Some 20; v_calls := [(0, 2)]; v_done := Some 160; v_verdict := VOk |};
